@@ -3,7 +3,7 @@
    tested `hasattr(msg, 'lat')`; the unchanged bodies are kept below as [*_unrepaired] for the record).
 
    Generators are modelled by their observable behaviour: the finite sequence of yielded messages followed by
-   either normal exhaustion or the exception that killed the generator ([gen]).  Laziness of nested generators
+   either normal exhaustion or the exception that killed the generator ([mgen]).  Laziness of nested generators
    is then a fact about *where* the exception sits in that sequence, and it is preserved by construction: each
    filter_data loop pulls one message at a time from its source and dies on the first exception.
 
